@@ -197,6 +197,23 @@ def handwritten():
     bar2 = rule(L("gh")); bar2["bar"] = True
     out.append(ruleset([bar1, rule(L("de"), P.plus(c(102))), bar2, rule(L("ij"), L("kl")), rule(P.plus(P.ccl([P.cr(97, 122)]))), rule(c(10))],
                        name="hw-bar-trailing"))
+    # several variable-trailing-context rules whose matches overlap: ties between them, and one rule's trail end
+    # lying inside another's match
+    az = P.plus(P.ccl([P.cr(97, 122)])); dg = P.plus(P.ccl([P.cr(48, 57)])); sp = P.star(c(32))
+    out.append(ruleset([rule(az, P.cat(sp, c(61))), rule(az, P.cat(sp, P.ccl([P.cb(61), P.cb(40)]))), rule(az), rule(P.alt(P.dot(), c(10)))],
+                       name="hw-vartrail-tie"))
+    out.append(ruleset([rule(az, P.cat(dg, c(59))), rule(az, dg), rule(az), rule(dg), rule(P.alt(P.dot(), c(10)))],
+                       name="hw-vartrail-nested"))
+    # a <*> rule directly before rules of start conditions that are not the first ones declared (rendered nested
+    # in their scope by the scopes layout)
+    out.append(ruleset([rule(L("k")), rule(L("s"), scs=[0]), rule(L("p"), scs=[3, 4]), rule(L("q"), scs=[3, 4]), rule(L("r"), scs=[2]),
+                        rule(L("t"), scs=[0]), rule(L("u"), scs=[4]), rule(P.alt(P.dot(), c(10)), scs=[0])],
+                       scs=[("A", False), ("B", True), ("C", False)], name="hw-star-in-scope"))
+    # rules that can never be selected (shadowed by an earlier one) next to '|' actions: the warning has to name them
+    sb1 = rule(L("while")); sb1["bar"] = True
+    sb2 = rule(L("bar"), scs=[2]); sb2["bar"] = True
+    out.append(ruleset([rule(L("if")), sb1, rule(L("if")), rule(L("foo"), scs=[2]), sb2, rule(L("foo"), scs=[2]), rule(az), rule(P.alt(P.dot(), c(10)), scs=[0])],
+                       scs=[("STR", True)], name="hw-shadow-bar"))
     out.append(ruleset([
         rule(L("x"), bol=True), rule(L("y"), scs=[2]), rule(L("z"), scs=[3]), rule(P.alt(P.dot(), c(10)), scs=[0])],
         scs=[("A", False), ("B", True)], eofs=[[1], [3], []],
